@@ -84,6 +84,9 @@ class Model:
             if any(x.get('kind') == 'CompoundStmt' for x in d.get('inner', [])) and not d.get('isImplicit'):
                 c = self.classes.setdefault(cls, {'bases': [], 'fields': [], 'methods': {}, 'ctor': None, 'file': fname, 'methoddecl': {}})
                 nparams = len([x for x in d.get('inner', []) if x.get('kind') == 'ParmVarDecl'])
+                c.setdefault('ctors', [])
+                if not any(x['node'].get('type') == d.get('type') for x in c['ctors']):
+                    c['ctors'].append({'node': d, 'nparams': nparams})
                 # keep the default constructor (fewest parameters)
                 if c['ctor'] is None or nparams < c['ctor']['nparams']:
                     c['ctor'] = {'node': d, 'nparams': nparams}
